@@ -1,6 +1,6 @@
 (* Extract.v — extraction of the executable model to OCaml (ExtrOcamlBasic only: bool, option, unit, list,
    prod, sumbool, sumor mapped to OCaml's; N, Z, positive, nat stay the extracted inductive types). *)
-Require Import Base Cbor EncoderModel Timestamp DecoderModel Schema Block Exporter Writer Merge.
+Require Import Base Cbor EncoderModel Timestamp DecoderModel Schema Block Exporter Writer Merge E2ESpec.
 Require Extraction.
 Require Import ExtrOcamlBasic.
 Extraction Blacklist String List Nat Int.
@@ -18,4 +18,5 @@ Extraction "model.ml"
   add_block_parameters set_active reader_open reader_next read_file gen_qr gen_aec gen_mm
   add_to blk_clear blk_of_rb tbs_of_tables bp_of_val xstep xrun
   named_trace fd_trace czip outputs_of fd_calls named_calls fout_new enc_rotate_fd lost
-  merge_bytes merge_run itemcount_blocks itemcount_total.
+  merge_bytes merge_run itemcount_blocks itemcount_total
+  exp_qr exp_mm exp_aec log_qr log_mm has_tyb typed_xb admb.
